@@ -39,6 +39,7 @@ type (
 		waiting     bool
 		closing     bool
 		inbound     []byte
+		done        chan struct{} // closed when the connection has terminated
 	}
 )
 
@@ -48,6 +49,7 @@ func newClientCxn(l lane.Lane, cxn net.Conn, dispatcher *cmdDispatcher) *clientC
 		started:     time.Now(),
 		socketState: csNone,
 		csceCh:      make(chan *clientStateEvent, 3),
+		done:        make(chan struct{}),
 	}
 
 	cc.cs = newClientState(l, cc, dispatcher)
@@ -138,6 +140,8 @@ func waitForAllCxnClose() {
 }
 
 func (cc *clientCxn) run() {
+	defer close(cc.done)
+
 	for {
 		event := <-cc.csceCh
 
@@ -176,6 +180,11 @@ func (cc *clientCxn) onWaitForCommand() {
 	cmd, length := cc.parseCommand()
 	if length == 0 {
 		cc.mu.Lock()
+		if cc.closing {
+			// close was requested in the meantime; its terminate event is queued
+			cc.mu.Unlock()
+			return
+		}
 		cc.waiting = true
 		cc.mu.Unlock()
 
